@@ -3,7 +3,7 @@ from fractions import Fraction
 from .. import core, epflow, gen, metacheck, oracles
 from .c11 import text_of, fmt_any
 
-THEOREMS = ["C10_reorder", "C10_normalize_reorder", "C10_reorder_declared", "C10_normalize_rename", "C10_rename_declared", "C10_split", "C10_rename_balance", "C10_completion_order_independent",
+THEOREMS = ["C10_reorder", "C10_normalize_reorder", "C10_reorder_declared", "C10_normalize_rename", "C10_rename_declared", "C10_split", "C10_normalize_split", "C10_split_declared", "C10_normalize_same_system_sums", "C10_rename_balance", "C10_completion_order_independent",
             "C10_aux_order_independent", "C10_sorted", "C10_text_is_read_by_trimmed_lines", "C10_text_whitespace",
             "C10_text_ignored_line", "C10_text_bom", "C10_text_crlf", "C10_text_explicit_id0", "C10_text_omitted_id_is_zero"]
 
@@ -134,7 +134,7 @@ def make_pairs(rng, count):
 
 def run(tier, seed):
     return metacheck.run("C10", tier, seed, THEOREMS, make_pairs,
-                         "data-level theorems (reorder, split, rename in the balance; order independence of completion and auxiliary "
+                         "data-level theorems (reorder, split, rename in the balance and from the declared components through normalisation; order independence of completion and auxiliary "
                          "assignment; stable final sort) and text-level theorems over the reader model (the reader sees the text through "
                          "its trimmed lines; white space, ignored lines, BOM, CR before LF, explicit id 0). Partial: repeated evaluation (other hash-map orders; bit-identical results required) are established by the "
                          "differential run on the implementation only; f32 summation order is not modelled",
